@@ -7,6 +7,7 @@ import GqlgenVerif.Model.EmbedPath
 import GqlgenVerif.Model.ExecLayout
 import GqlgenVerif.Gen.BuildGuards
 import GqlgenVerif.Model.DirArgs
+import GqlgenVerif.Gen.GenerateSteps
 /-! Line-protocol driver for C17: the naming model on the harness's cases. Text travels as hex of UTF-8;
 the model works on code points (the harness sends ASCII, type identifiers are returned as code points
 re-encoded to UTF-8). -/
@@ -341,8 +342,26 @@ def filesStep : List String → Option String
       pure s!"passed={(GqlgenVerif.DirArgs.passed a).getD "nil"} declared_fn={sd (GqlgenVerif.DirArgs.declared 0 a)} declared_m={sd (GqlgenVerif.DirArgs.declared 1 a)} effective={sv (GqlgenVerif.DirArgs.effective d u)} ok={bit (GqlgenVerif.DirArgs.closureOk 0 d u && GqlgenVerif.DirArgs.closureOk 1 d u)}"
   | _ => none
 
+/-- `regen <autobind 0|1> <schema types a,b|-> <hand-written types|-> <types of the stale models file|-|none>`: one run of
+`api.Generate` in the REGENERATED statement order (Gen/GenerateSteps.lean) on the tree model (Model/Regenerate.lean):
+`ok|fail models=<a,b|none> spec=<ok|violates:…>`; Spec = succeeds and the models file declares exactly the schema types
+without a hand-written Go type. -/
+def regenStep : List String → Option String
+  | ["regen", ab, ts, hs, st] =>
+    let names := fun (x : String) => if x == "-" then [] else x.splitOn ","
+    let p : GqlgenVerif.Regenerate.Project := ⟨names ts, names hs, ab == "1"⟩
+    let t : GqlgenVerif.Regenerate.Tree := ⟨if st == "none" then none else some (names st), st != "none"⟩
+    let (t', ok) := GqlgenVerif.Regenerate.run GqlgenVerif.Gen.GenerateSteps.steps p t
+    let want := p.types.filter (fun x => !p.hand.contains x)
+    let show' := fun (m : Option (List String)) => match m with | none => "none" | some l => if l.isEmpty then "-" else ",".intercalate l
+    let spec := if !ok then "violates:generation-fails"
+      else if t'.modelsFile.getD [] != want then "violates:models-do-not-follow-the-schema" else "ok"
+    some s!"{if ok then "ok" else "fail"} models={show' t'.modelsFile} spec={spec}"
+  | _ => none
+
 def step (line : String) : String :=
   if line == "flav" then flavStep else
+  if let some r := regenStep (line.splitOn " ") then r else
   if let some r := filesStep (line.splitOn " ") then r else
   if let some r := embedStep (line.splitOn " ") then r else
   if let some r := rootStep (line.splitOn " ") then r else
